@@ -2,7 +2,7 @@ HOOKS = {
     "guard": "OSMIUM_VERIF_HOOKS",
     "enable": "harnesses are compiled from /repo's working tree with -I/repo/include -DOSMIUM_VERIF_HOOKS (header-only library)",
     "baseline_off_cmd": "cmake --build /repo/_build && ctest --test-dir /repo/_build -j8 --timeout 900",
-    "source_commits": ["6ec57f2", "0c60619", "9e3eb93", "6fc245f", "1884519", "bdf7d6e", "156ce09", "a53ea63"],
+    "source_commits": ["6ec57f2", "0c60619", "9e3eb93", "6fc245f", "1884519", "bdf7d6e", "156ce09", "a53ea63", "b496666"],
     "add_only": True,
 }
 ENGINES = [
